@@ -495,6 +495,14 @@ class C04(Check):
                 owned_x.append(("tx", b"\x01\x00" + pre))
                 owned_x.append(("tx", b"\x02\x00" + pre + b"\x05\x00" + b"\x11" * (8 * n_out) + E.compress(E.B) * n_out
                                 + b"\x00" + b"\x22" * 96 + b"\x33" * 32))
+        # check_view_tag / SubKeyChecker entry points take a position argument of their own: any usize, not only positions of outputs
+        for pos in (0, 1, 2 ** 32 - 1, 2 ** 32, 2 ** 49 - 1, 2 ** 49, 2 ** 56 - 1, 2 ** 56, 2 ** 63 - 1, 2 ** 63, 2 ** 64 - 1):
+            for tgt in (b"\x03" + E.compress(S) + b"\x55", b"\x02" + E.compress(S), b"\x03" + b"\xff" * 33):
+                add("viewtag %s %s %d" % (hx(tgt), hx(E.compress(R)), pos), "position-argument")
+            add("subkey_check %s %s 0 2 0 2 %d %s %s" % ("01" + "00" * 31, hx(E.compress(S)), pos, hx(E.compress(S)), hx(E.compress(R))),
+                "position-argument")
+            add("onetime %s %s %s %d" % (hx(E.compress(S)), "01" + "00" * 31, hx(E.compress(R)), pos), "position-argument")
+            add("recover %s %s %s %d 0 1" % ("01" + "00" * 31, "02" + "00" * 31, hx(E.compress(R)), pos), "position-argument")
         self.n_owned = len(owned)
         hdr = b"\x01\x01\x01" + b"\x11" * 32 + b"\x00" * 4
         for T, b in owned:
